@@ -121,4 +121,48 @@ theorem encB_empty (b : Bytes) : encB b = "" ↔ b = [] := by
     simpa [ofString] using this
   · intro h; subst h; rfl
 
+/-! ### the built-in handlers of the model are the regenerated ones -/
+
+theorem encB_append (a b : Bytes) : encB (a ++ b) = encB a ++ encB b := by
+  simp [encB, List.map_append, String.ofList_append]
+
+theorem encB_nil : encB [] = "" := rfl
+theorem encB_open : encB (ofString "${") = "${" := by decide
+theorem encB_close : encB (ofString "}") = "}" := by decide
+
+/-- what the value handler is told about a scanned field of the model -/
+def vxOf (f : ScannedField) : VXOps where
+  lookup := (lookupTag tProp f.info.tags).map encB
+  idx := fun s => Tag.index Tag.cComma Tag.isLB Tag.isRB (ofString s)
+  sliceTo := fun s i => (slice? (ofString s) 0 i).map encB
+  sliceFrom := fun s i => (slice? (ofString s) i (ofString s).length).map encB
+
+def encExtractB : Extract → Option (String × String × Bool)
+  | .no => some ("", "", false)
+  | .yes t tv => some (encB t, encB tv, true)
+  | .panic => none
+
+theorem valueExtract_is_code (f : ScannedField) : valueExtractS (vxOf f) = encExtractB (valueExtract f) := by
+  unfold valueExtractS valueExtract vxOf
+  cases hl : lookupTag tProp f.info.tags with
+  | none => rfl
+  | some tv =>
+    simp only [Option.map_some, dec_encB, Tag.propShorthand?]
+    by_cases hi : Tag.index Tag.cComma Tag.isLB Tag.isRB tv = -1
+    · simp [hi, encExtractB, fmtProp, encB_append, encB_open, encB_close, encB_nil, String.append_assoc]
+    · simp only [hi, if_false]
+      cases h1 : slice? tv 0 (Tag.index Tag.cComma Tag.isLB Tag.isRB tv) with
+      | none => simp [encExtractB]
+      | some k =>
+        cases h2 : slice? tv (Tag.index Tag.cComma Tag.isLB Tag.isRB tv) tv.length with
+        | none => simp [encExtractB]
+        | some rest => simp [encExtractB, fmtProp, encB_append, encB_open, encB_close, encB_nil, String.append_assoc]
+
+theorem markerExtract_is_code (f : ScannedField) :
+    (match f.info.marker.map encB with
+     | some p => some ("", p, true)
+     | none => some ("", "", false)) = encExtractB (markerExtract f) := by
+  unfold markerExtract
+  cases f.info.marker <;> rfl
+
 end Ioc.Sem
